@@ -145,6 +145,44 @@ def sources(ctx):
                "map_iteration": sorted(facts.bodies[owner(k)]["name"] or k for k in map_iters)})
 
 
+def const_register(facts, body, op, depth=0):
+    """name of the register an operand denotes when it is a constant (possibly moved through locals or converted from
+    an iced register constant with into()/from()), else None"""
+    if depth > 6:
+        return None
+    if op[0] == "k":
+        v = op[1].get("v")
+        ty = op[1].get("ty")
+        if v is None or not (isinstance(ty, list) and ty[0] == "adt"):
+            return None
+        ev = facts.enum_variant_by_discr(ty[1], v)
+        return ev[1] if ev else None
+    if op[0] not in ("c", "m") or op[1][1]:
+        return None
+    loc = op[1][0]
+    defs = []
+    for blk in body["blocks"]:
+        for st in blk["s"]:
+            if st[0] == "a" and st[1][0] == loc and not st[1][1]:
+                defs.append(("s", st))
+        t = blk["term"]
+        if t["k"] == "call" and t.get("dest") and t["dest"][0] == loc and not t["dest"][1]:
+            defs.append(("c", t))
+    if len(defs) != 1:
+        return None
+    kind, d = defs[0]
+    if kind == "s":
+        if d[2][0] == "use":
+            return const_register(facts, body, d[2][1], depth + 1)
+        if d[2][0] == "agg" and d[2][1][0] == "adt" and not d[2][2] and len(d[2][1]) > 3:
+            return d[2][1][3]  # a field-less enum constant is built as an aggregate
+        return None
+    n = F.callee_name(d)
+    if n.endswith(("::into", "::from")) and len(d["args"]) == 1:
+        return const_register(facts, body, d["args"][0], depth + 1)
+    return None
+
+
 def reads(ctx):
     ck, facts, O, D, hm = ctx.check, ctx.facts, ctx.oracle, ctx.dispatch, ctx.hmodel
     from .C01 import EXPLICIT_FULL, FIXED_KIND_REG
@@ -192,3 +230,37 @@ def reads(ctx):
         ck.violation("C20.reads", "api=step", bad)
     else:
         ck.ok("C20.reads", "api=step")
+    # the primitives of the handler / step models: byte accessors, fetch, decoder front end, error decorators and the
+    # trace / call-stack renderers build the error texts and traces. None of them may read a register other than RIP:
+    # an unwritten register holds the constructor's random value. (who-may-call over the resolved call graph)
+    R = ctx.roles
+    from . import C08
+    dn, da, fetch = R.decoders()
+    roots = [R.mem_read_bytes, R.mem_write_bytes, fetch, dn, da] + C08.hint_builder(ctx)
+    for nm in ("call_stack", "trace", "resolve_symbol"):
+        try:
+            roots.append(facts.method(AXE, nm)["path"])
+        except KeyError:
+            pass
+    readers = {p_ for n_, p_ in R.reg_read.items()} | {R.reg_read_pub128}
+    cone2 = C18.cone_of(facts, roots)
+    nb = 0
+    for k in sorted(cone2):
+        b = facts.bodies[k]
+        if b["glue"] or k in readers:
+            continue
+        nb += 1
+        for blk in b["blocks"]:
+            t = blk["term"]
+            if t["k"] != "call" or F.callee_name(t) not in readers:
+                continue
+            a = t["args"][1] if len(t["args"]) > 1 else None
+            rip = const_register(facts, b, a) == "RIP" if a is not None else False
+            if not rip:
+                ck.violation("C20.reads", "fn=%s" % (b["name"] or k.split("::")[-2]), "reads a register while building an error text / trace",
+                             where=F.site_str(b, t["sp"]),
+                             what="an unwritten register holds the constructor's random value: two identically prepared machines report different texts")
+    ck.cov["error_text_cone_bodies"] = nb
+    ck.floor("error-text / trace cone (bodies)", nb, 8)
+    if not any(v["rule"] == "C20.reads" and v["instance"].startswith("fn=") for v in ck.violations):
+        ck.ok("C20.reads", "error texts and traces", nb)
